@@ -171,4 +171,18 @@ def nFifoB (s s' : NState) : Bool :=
 def nLiveB (s : NState) : Bool :=
   s.panicked || (List.range s.ntasks).all fun x => (s.fut x).isNone || s.queue.contains x
 
+/-! ### termination measure (wave 3) -/
+
+/-- what slot `t` still has to do: the actions left plus one for returning `Ready` -/
+def slotWork (f : Nat → Option NScript) (t : Nat) : Nat :=
+  match f t with
+  | none => 0
+  | some sc => sc.length + 1
+
+/-- work left in all slots -/
+def nWork (s : NState) : Nat := ((List.range s.ntasks).map (slotWork s.fut)).sum
+
+/-- bound on the number of top-level steps until the run loop stalls (or the guard panics) -/
+def nStallBound (s : NState) : Nat := nWork s * (s.ntasks + 1) + s.queue.length
+
 end YashModel.Executor.Nested
